@@ -1,4 +1,298 @@
-import Sio.Model.Codec
+/-
+  C01 — Packet codec: encode/decode round-trip and Socket.IO v5 wire conformance.
+
+  Property theorems only; every proof is a one-line appeal to Sio/Lemmas/Codec*.lean.  The
+  predicates used in the statements (`NoReservedKey`, `NoBin`, `binLeaves`, `phNums`, `TopOK`,
+  `WFHdr`, `BodyOK`, `StartOK`, `WF`, `WFArgs`, `normNs`, `Packet.norm`, `Packet.wire`) are
+  defined in Sio/Lemmas/CodecDefs.lean, the model in Sio/Model/Codec.lean, the independent
+  specification codec in Sio/Model/CodecSpec.lean.
+
+  Parameters (not verified here, supplied and exercised by the correspondence harness):
+  * `cls`   — Python's `str.isdigit()`/`int()` table; only `AsciiCls cls` (it is right on ASCII)
+              is assumed, resp. `DecLt10 cls` (digit values are below ten) for the guards;
+  * `dumps`/`loads` — the JSON text layer; assumed only at the *one* value that is printed
+              (`hrt`, `hstart` below); `hstart` is proved for the Lean printer `J.dumps`.
+-/
+import Sio.Lemmas.CodecPacket
+import Sio.Lemmas.CodecSpec
+import Sio.Lemmas.CodecGuards
+import Sio.Lemmas.CodecJson
 namespace Sio.C01
-theorem placeholder_stub : True := trivial
+open Sio
+
+/-! ## a concrete non-trivial packet for the non-vacuity examples
+
+`Packet(EVENT, ["ev", b"\x01\x02", {"k": [b"\x03", "-1"]}, 7], namespace="/chat?x=1", id=12)`
+after promotion to BINARY_EVENT: two optional header fields, a query string, byte strings at
+depth 1 and 3, a string that starts with `-`. -/
+
+def exData : J :=
+  .arr [.str "ev".toList, .bin [1, 2], .obj [("k".toList, .arr [.bin [3], .str "-1".toList])], .int 7]
+
+def exP : Packet := ⟨BINARY_EVENT, some "/chat?x=1".toList, some 12, some exData⟩
+
+/-- a `loads` that inverts `J.dumps` at the one value the example prints -/
+def exLoads (s : Str) : Except Err J :=
+  if s = J.dumps (decon exData []).1 then .ok (decon exData []).1 else .error .jsonError
+
+theorem exP_wf : WF exP = true := by decide
+theorem exP_mk : mkPacket true EVENT (some exData) (some "/chat?x=1".toList) (some 12) none = .ok exP := rfl
+
+/-! ## 1. binary deconstruction / reconstruction -/
+
+/-- Reconstruction undoes deconstruction, at any nesting depth, for an arbitrary accumulator
+    prefix `acc` (placeholders index into `acc ++ leaves`) and any continuation `rest` of the
+    attachment list. -/
+theorem recon_decon_gen (j : J) (acc rest : List Bytes) (h : NoReservedKey j = true) :
+    recon (((decon j acc).2 ++ rest).map J.bin) (decon j acc).1 = .ok j :=
+  Sio.recon_decon_gen j acc rest h
+
+theorem recon_decon (j : J) (h : NoReservedKey j = true) :
+    recon ((decon j []).2.map J.bin) (decon j []).1 = .ok j := by
+  simpa using Sio.recon_decon_gen j [] [] h
+
+example : NoReservedKey exData = true ∧ (decon exData []).2 = [[1, 2], [3]] := by decide
+
+/-- The attachments are the byte strings in depth-first order, the text part contains none, and
+    its placeholders are numbered `0, 1, 2, …` in depth-first order. -/
+theorem decon_dfs (j : J) :
+    (decon j []).2 = binLeaves j ∧ NoBin (decon j []).1 = true ∧
+    (NoReservedKey j = true → phNums (decon j []).1 = List.range (binLeaves j).length) := by
+  refine ⟨by simpa using decon_snd j [], noBin_decon j [], fun h => ?_⟩
+  simpa [List.range_eq_range'] using phNums_decon j [] h
+
+/-- the same from an arbitrary accumulator: numbering continues at `acc.length` -/
+theorem decon_dfs_gen (j : J) (acc : List Bytes) :
+    (decon j acc).2 = acc ++ binLeaves j ∧ NoBin (decon j acc).1 = true ∧
+    (NoReservedKey j = true →
+      phNums (decon j acc).1 = List.range' acc.length (binLeaves j).length) :=
+  ⟨decon_snd j acc, noBin_decon j acc, phNums_decon j acc⟩
+
+example : phNums (decon exData []).1 = [0, 1] := by decide
+
+/-! ## 2. header round trip -/
+
+/-- Every header of the property's quantifier, followed by any text that cannot be mistaken for
+    a header field (`BodyOK`, the weakest such condition: see its definition), is read back
+    exactly — for *all* values of the adjacent decimal fields. -/
+theorem hdr_roundtrip {cls : Char → DC} (hcls : AsciiCls cls) (t : Nat) (nsp : Option Str)
+    (id natt : Option Nat) (body : Str) (hwf : WFHdr t nsp id natt = true)
+    (hb : BodyOK cls nsp id natt body = true) :
+    decodeHdr cls (encodeHdr t nsp id natt ++ body) = .ok ⟨t, normNs nsp, id, body, natt.getD 0⟩ :=
+  hdr_roundtrip_lem hcls hwf hb
+
+/-- header-independent corollary: the body is empty or starts with an ASCII character other
+    than a digit, `-` and `/` -/
+theorem hdr_roundtrip_start {cls : Char → DC} (hcls : AsciiCls cls) (t : Nat) (nsp : Option Str)
+    (id natt : Option Nat) (body : Str) (hwf : WFHdr t nsp id natt = true)
+    (hb : body = [] ∨ StartOK body = true) :
+    decodeHdr cls (encodeHdr t nsp id natt ++ body) = .ok ⟨t, normNs nsp, id, body, natt.getD 0⟩ := by
+  rcases hb with rfl | hb
+  · exact hdr_roundtrip_lem hcls hwf (bodyOK_nil _ _ _)
+  · exact hdr_roundtrip_lem hcls hwf (bodyOK_of_startOK hcls _ _ _ hb)
+
+/-- the subtle case of the brief: id present, no namespace, non-binary type, a `-` inside the
+    body: `2` `12` `["a-b"]` -/
+example : AsciiCls asciiCls ∧ WFHdr 2 none (some 12) none = true ∧
+    BodyOK asciiCls none (some 12) none "[\"a-b\"]".toList = true ∧
+    encodeHdr 2 none (some 12) none ++ "[\"a-b\"]".toList = "212[\"a-b\"]".toList :=
+  ⟨asciiCls_ascii, by decide, by decide, by decide⟩
+
+/-- the namespace as a path: decoding yields the path without its query string -/
+theorem nsPath_normNs (nsp : Option Str) (h : WFNs nsp = true) :
+    nsPath (normNs nsp) = (nsPath nsp).takeWhile (· != '?') := by
+  cases nsp with
+  | none => rfl
+  | some ns =>
+    by_cases hd : ns = ['/']
+    · subst hd; rfl
+    · simp [normNs, nsPath, hd]
+
+/-! ## 3. packet round trip and attachment hand-back -/
+
+/-- Encoding a well-formed packet, decoding the text frame and handing the attachments back one
+    by one yields the same packet (namespace normalised): the text frame decodes to the wire
+    packet and announces exactly the number of attachments produced; after the last attachment
+    the packet is complete (`.inr`), with no attachment nothing is pending (`.inl` with need 0). -/
+theorem roundtrip {cls : Char → DC} (hcls : AsciiCls cls) {dumps : J → Str}
+    {loads : Str → Except Err J} (p : Packet)
+    (hrt : ∀ j, p.wire.data = some j → loads (dumps j) = .ok j)
+    (hstart : ∀ j, p.wire.data = some j → StartOK (dumps j) = true)
+    (hwf : WF p = true) :
+    let atts := (encode dumps p).2.getD []
+    decode cls loads (encode dumps p).1 = .ok (p.wire, atts.length) ∧
+    feed ⟨p.wire, atts.length, []⟩ (atts.map J.bin)
+      = .ok (if atts = [] then .inl ⟨p.norm, 0, []⟩ else .inr p.norm) :=
+  ⟨decode_encode hcls hrt hstart hwf, feed_encode hwf⟩
+
+/-- the same with the JSON hypotheses in their global form (as in DESIGN §5) -/
+theorem roundtrip_global {cls : Char → DC} (hcls : AsciiCls cls) {dumps : J → Str}
+    {loads : Str → Except Err J}
+    (hrt : ∀ j, NoBin j = true → loads (dumps j) = .ok j)
+    (hstart : ∀ j, TopOK j = true → StartOK (dumps j) = true)
+    (p : Packet) (hwf : WF p = true) :
+    let atts := (encode dumps p).2.getD []
+    decode cls loads (encode dumps p).1 = .ok (p.wire, atts.length) ∧
+    feed ⟨p.wire, atts.length, []⟩ (atts.map J.bin)
+      = .ok (if atts = [] then .inl ⟨p.norm, 0, []⟩ else .inr p.norm) :=
+  roundtrip hcls p (fun j h => hrt j (wire_json_hyps hwf h).1)
+    (fun j h => hstart j (wire_json_hyps hwf h).2) hwf
+
+/-- `hstart` holds for the Lean printer: it is discharged, not assumed. -/
+theorem dumps_start (j : J) (h : TopOK j = true) : StartOK (J.dumps j) = true :=
+  dumps_startOK j h
+
+/-- For packets made by the constructor (with binary auto-detection), printed by `J.dumps`:
+    only the `loads ∘ dumps` hypothesis at the printed value remains. -/
+theorem roundtrip_mk {cls : Char → DC} (hcls : AsciiCls cls) {loads : Str → Except Err J}
+    (t : Nat) (d : Option J) (nsp : Option Str) (id : Option Nat) (p : Packet)
+    (hargs : WFArgs t d nsp id = true) (hmk : mkPacket true t d nsp id none = .ok p)
+    (hrt : ∀ j, p.wire.data = some j → loads (J.dumps j) = .ok j) :
+    let atts := (encode J.dumps p).2.getD []
+    decode cls loads (encode J.dumps p).1 = .ok (p.wire, atts.length) ∧
+    feed ⟨p.wire, atts.length, []⟩ (atts.map J.bin)
+      = .ok (if atts = [] then .inl ⟨p.norm, 0, []⟩ else .inr p.norm) :=
+  have hwf := wf_of_mkPacket hargs hmk
+  roundtrip hcls p hrt (fun j h => dumps_startOK j (wire_json_hyps hwf h).2) hwf
+
+/-- non-vacuity: the hypotheses of `roundtrip`/`roundtrip_mk` hold for `exP`, and the frame is
+    the expected one -/
+example : WFArgs EVENT (some exData) (some "/chat?x=1".toList) (some 12) = true ∧
+    (∀ j, exP.wire.data = some j → exLoads (J.dumps j) = .ok j) ∧
+    (encode J.dumps exP).1 = ("52-/chat?x=1,12[\"ev\",{\"_placeholder\":true,\"num\":0}," ++
+      "{\"k\":[{\"_placeholder\":true,\"num\":1},\"-1\"]},7]").toList := by
+  refine ⟨by decide, ?_, by decide⟩
+  intro j h
+  have : j = (decon exData []).1 := by
+    have : exP.wire.data = some (decon exData []).1 := rfl
+    rw [this] at h; injection h with h; exact h.symm
+  subst this; simp [exLoads]
+
+/-- `handback`: wherever the attachment list is split, the attachment at the split point is
+    answered "more" unless it is the last one, which completes the packet `norm p`; any
+    attachment after that is refused with `ValueError`. -/
+theorem handback {dumps : J → Str} (p : Packet) (hwf : WF p = true) :
+    let atts := (encode dumps p).2.getD []
+    (∀ (pre post : List J) (b : J), atts.map J.bin = pre ++ b :: post →
+      addAttachment ⟨p.wire, atts.length, pre⟩ b
+        = .ok (if post = [] then .complete p.norm
+               else .more ⟨p.wire, atts.length, pre ++ [b]⟩)) ∧
+    (∀ (pk : Packet) (x : J),
+      addAttachment ⟨pk, atts.length, atts.map J.bin⟩ x = .error .valueError) := by
+  refine ⟨fun pre post b h => handback_split hwf pre post b h, fun pk x => ?_⟩
+  simpa using handback_extra pk (((encode dumps p).2.getD []).map J.bin) x
+
+/-- independent of any packet: before the count is reached the answer is "more", once it is
+    reached every further attachment is refused -/
+theorem handback_more (pk : Packet) (need : Nat) (got : List J) (b : J)
+    (h : got.length + 1 < need) :
+    addAttachment ⟨pk, need, got⟩ b = .ok (.more ⟨pk, need, got ++ [b]⟩) :=
+  addAttachment_more b h
+
+theorem handback_refuse (pk : Packet) (need : Nat) (got : List J) (b : J) (h : need ≤ got.length) :
+    addAttachment ⟨pk, need, got⟩ b = .error .valueError :=
+  addAttachment_extra b h
+
+example : ((encode J.dumps exP).2.getD []).map J.bin = [J.bin [1, 2]] ++ J.bin [3] :: [] := rfl
+
+/-! ## 4. byte strings only for events and acknowledgements -/
+
+theorem binary_only_event_ack (t : Nat) (d : Option J) (nsp : Option Str) (id : Option Nat) :
+    (∃ e, mkPacket true t d nsp id none = .error e) ↔
+      ((∃ j, d = some j ∧ binLeaves j ≠ []) ∧ t ≠ EVENT ∧ t ≠ ACK) :=
+  mkPacket_error_iff t d nsp id
+
+/-- and the error is always `ValueError`, also with an explicit `binary=` argument -/
+theorem binary_error_is_valueError (t : Nat) (d : Option J) (nsp : Option Str) (id : Option Nat)
+    (b : Option Bool) (e : Err) (h : mkPacket true t d nsp id b = .error e) : e = .valueError :=
+  mkPacket_error_valueError t d nsp id b e h
+
+example : (∃ e, mkPacket true CONNECT (some exData) none none none = .error e) :=
+  ⟨.valueError, rfl⟩
+
+/-- the constructor promotes exactly EVENT and ACK with a binary payload -/
+theorem mk_wellformed (t : Nat) (d : Option J) (nsp : Option Str) (id : Option Nat) (p : Packet)
+    (hargs : WFArgs t d nsp id = true) (hmk : mkPacket true t d nsp id none = .ok p) :
+    WF p = true :=
+  wf_of_mkPacket hargs hmk
+
+/-! ## 5. wire conformance against the independent specification codec -/
+
+/-- `encode` writes exactly the text frame and the attachment list that the grammar of the
+    Socket.IO v5 protocol prescribes — for every packet, no hypothesis. -/
+theorem encode_is_spec (dumps : J → Str) (p : Packet) :
+    encode dumps p = ((Spec.frame dumps p).1,
+      if isBinType p.type then some (Spec.frame dumps p).2 else none) :=
+  encode_is_spec_lem dumps p
+
+/-- The grammar-directed parser of the specification accepts the frame and reads the wire
+    packet and the attachment count from it. -/
+theorem spec_accepts {dumps : J → Str} {loads : Str → Except Err J} (p : Packet)
+    (hrt : ∀ j, p.wire.data = some j → loads (dumps j) = .ok j)
+    (hstart : ∀ j, p.wire.data = some j → StartOK (dumps j) = true)
+    (hwf : WF p = true) :
+    Spec.parse loads (Spec.frame dumps p).1 = .ok (p.wire, (Spec.frame dumps p).2.length) :=
+  spec_accepts_lem hrt hstart hwf
+
+/-- The specification's reassembly puts the byte strings back: placeholders are numbered as
+    the specification says. -/
+theorem spec_fill (j : J) (h : NoReservedKey j = true) :
+    Spec.fill (Spec.blobs j) (Spec.strip 0 j) = some j :=
+  spec_fill_strip j h
+
+/-- In the other direction: frames produced by the specification codec are accepted by this
+    decoder. -/
+theorem spec_frames_decode {cls : Char → DC} (hcls : AsciiCls cls) {dumps : J → Str}
+    {loads : Str → Except Err J} (p : Packet)
+    (hrt : ∀ j, p.wire.data = some j → loads (dumps j) = .ok j)
+    (hstart : ∀ j, p.wire.data = some j → StartOK (dumps j) = true)
+    (hwf : WF p = true) :
+    decode cls loads (Spec.frame dumps p).1 = .ok (p.wire, (Spec.frame dumps p).2.length) ∧
+    feed ⟨p.wire, (Spec.frame dumps p).2.length, []⟩ ((Spec.frame dumps p).2.map J.bin)
+      = .ok (if (Spec.frame dumps p).2 = [] then .inl ⟨p.norm, 0, []⟩ else .inr p.norm) := by
+  rw [spec_frame_fst, spec_frame_snd]
+  exact ⟨decode_encode hcls hrt hstart hwf, feed_encode hwf⟩
+
+example : Spec.parse exLoads (Spec.frame J.dumps exP).1 = .ok (exP.wire, 2) :=
+  spec_accepts exP (by
+    intro j h
+    have : j = (decon exData []).1 := by
+      have : exP.wire.data = some (decon exData []).1 := rfl
+      rw [this] at h; injection h with h; exact h.symm
+    subst this; simp [exLoads])
+    (fun j h => dumps_startOK j (wire_json_hyps exP_wf h).2) exP_wf
+
+/-! ## 6. guards (reused by C12) -/
+
+/-- whatever the input: an accepted header announces fewer than `10^10` attachments … -/
+theorem hdr_natt_guard {cls : Char → DC} (hd : DecLt10 cls) (s : Str) (h : Hdr)
+    (hh : decodeHdr cls s = .ok h) : h.natt < 10 ^ 10 :=
+  decodeHdr_natt_bound hd hh
+
+/-- … and carries an id below `10^100` -/
+theorem hdr_id_guard {cls : Char → DC} (hd : DecLt10 cls) (s : Str) (h : Hdr) (i : Nat)
+    (hh : decodeHdr cls s = .ok h) (hi : h.id = some i) : i < 10 ^ 100 :=
+  decodeHdr_id_bound hd hh hi
+
+/-- the hypotheses are met by the ASCII table, and the bound is attained -/
+example : DecLt10 asciiCls := asciiCls_decLt10
+example : ∃ h, decodeHdr asciiCls "59999999999-".toList = .ok h ∧ h.natt = 9999999999 :=
+  ⟨⟨5, none, none, [], 9999999999⟩, rfl, rfl⟩
+
+/-! ## 7. the domain boundary (informational; DESIGN §5 C01)
+
+A bare number as the top-level payload is outside the quantifier (`TopOK`): it is
+indistinguishable from an id / an attachment count.  Both witnesses are reproduced on the real
+code by the harness on every run. -/
+
+/-- `Packet(CONNECT, data=5)` encodes to `"05"`, which reads as id 5 without payload -/
+theorem number_payload_not_roundtrip :
+    (encode J.dumps ⟨CONNECT, none, none, some (.int 5)⟩).1 = "05".toList ∧
+    decodeHdr asciiCls "05".toList = .ok ⟨0, none, some 5, [], 0⟩ := ⟨rfl, rfl⟩
+
+/-- `Packet(CONNECT_ERROR, id=3, data=-5)` encodes to `"43-5"`: three attachments, id 5 -/
+theorem negative_payload_not_roundtrip :
+    (encode J.dumps ⟨CONNECT_ERROR, none, some 3, some (.int (-5))⟩).1 = "43-5".toList ∧
+    decodeHdr asciiCls "43-5".toList = .ok ⟨4, none, some 5, [], 3⟩ := ⟨rfl, rfl⟩
+
 end Sio.C01
